@@ -28,7 +28,9 @@ MANIFEST = {
             "of the stored durations; duration(), TotalDuration and the calculate_kspace total are that same sum; the "
             "[BLOCKS] integer times the block raster reproduces an on-raster duration and re-read durations give the same prefix "
             "sums; the time_range variants of adc_times / rf_times / waveforms return a contiguous segment of the full result at "
-            "the same block starts; OwnArgs follows from the constructors' guarantees. The extracted model and an "
+            "the same block starts; OwnArgs follows from the constructors' guarantees; for every history of set_block / add_block "
+            "and read() on one object the two block tables keep the same keys in the same order and duration() equals "
+            "sum(block_durations) (false for a merging read: witness). The extracted model and an "
             "exact-Fraction oracle are run against add_block/set_block histories, write+read round trips and every "
             "consumer's time axis on ~450 (quick) sequences over 8 raster families.",
     'note': 'Trusted: Coq kernel; translator patterns (block.py, calc_duration.py, sequence.py accumulation statements, '
@@ -51,7 +53,7 @@ RULE = ('sequences of 1-9 blocks of compatible raster-aligned events (block/sinc
         'pp.calc_duration(*events) == pp.calc_duration(get_block); duration() total and count; every ADC sample time, RF '
         'centre time and gradient corner time of waveforms_and_times / rf_times / adc_times (also with time_range windows that start in the first block, at 0 and at random, incl. waveforms(time_range)) and '
         'the t_* outputs of calculate_kspace == prefix sum of the durations + the in-block time; TotalDuration and the '
-        '[BLOCKS] column of the written file; durations after re-reading, also into an object created for another block raster (x2, /2, x1.5, x4) and written again: the new file\'s [BLOCKS] integers x its BlockDurationRaster and TotalDuration must still be the stored durations. Correspondence: set_block_duration, calc_duration, '
+        '[BLOCKS] column of the written file; durations after re-reading, also into an object created for another block raster (x2, /2, x1.5, x4) and written again: the new file\'s [BLOCKS] integers x its BlockDurationRaster and TotalDuration must still be the stored durations; a USED object (other / more blocks, gapped numbers, decoded once) reads the file and must then be indistinguishable from a fresh object that read it (block tables, duration(), sum(block_durations), time axes, time_range windows, calculate_kspace, rewritten file text); block_events / block_durations of every object must carry the same keys in the same order with duration() == sum(block_durations). Correspondence: the block-table model over the same history,  set_block_duration, calc_duration, '
         'starts, adc/rf times, gradient piece ends and the [BLOCKS] integers of the extracted Coq model. '
         'non-trivial = at least 2 blocks with >= 2 timed events each or an overwritten block')
 TRUSTED = ['calc_rf_center and the in-event time vectors (rf.t, grad.tt) are taken from the implementation',
@@ -349,6 +351,7 @@ def evaluate(ctx, case, do_kspace=False):
         cd_dec[i] = F(pp.calc_duration(seq.get_block(i)))
         if not close(cd_dec[i], stored[i], scale):
             fails.append(('calc_duration-decoded-vs-stored', {'block': i, 'calc': float(cd_dec[i]), 'stored': float(stored[i])}))
+    totals_agree(seq, 'built-object', fails)
     # 2. duration()
     total = sum(stored.values())
     dur, nblk, evcount = seq.duration()
@@ -496,6 +499,11 @@ def evaluate(ctx, case, do_kspace=False):
                                 'object_raster': foreign['block']}))
                             break
                 ctx.count('file.foreign_raster_roundtrip')
+                # a USED object (already holding other / more blocks under other numbers, decoded once) reads the file:
+                # afterwards it must be indistinguishable from a fresh object that read the same file, and all the places
+                # that derive a total must agree with each other
+                if ctx.tier != 'quick' or ctx_rng(case).random() < 0.6:
+                    fails += reused_object_read(ctx, case, fn, s2, dname)
             except AssertionError as e:
                 fails.append(('write-asserts', {'exception': repr(e)}))
             except Exception as e:  # noqa: BLE001
@@ -517,6 +525,130 @@ def evaluate(ctx, case, do_kspace=False):
     return {'seq': seq, 'inputs': inputs, 'ids': ids, 'stored': stored, 'cd_in': cd_in, 'ds': ds, 'starts': starts, 'adc': adc,
             'rfx': rfx, 'rfr': rfr, 'wave': wave, 'wd': wd, 'cols': cols, 'total': total, 'scale': scale, 'failed': bool(fails),
             'ds_model': ds_model, 'tr': tr_results, 'evcount': [int(v) for v in evcount]}
+
+
+TABLES = []      # pending block-table comparisons (filled by reused_object_read, drained by compare_tables)
+
+
+def compare_tables(ctx):
+    items, TABLES[:] = list(TABLES), []
+    if not items or not ctx.model_available:
+        return
+    for t, out in zip(items, ctx.model([t['line'] for t in items])):
+        parts = [Toks(x) for x in out.split('|')]
+        mkeys = parts[0].list(parts[0].z)
+        n = parts[1].int()
+        mdurs = [(parts[1].z(), parts[1].q()) for _ in range(n)]
+        mdur = parts[2].opt(parts[2].q)
+        msum = parts[3].q()
+        if mkeys != t['keys'] or mdurs != t['durs'] or (mdur is None) != (t['duration'] is None) or \
+                (mdur is not None and not close(mdur, t['duration'], t['sum'])) or not close(msum, t['sum'], t['sum']):
+            ctx.mismatch('block_tables', t['case'], {
+                'model_keys': mkeys[:10], 'impl_keys': t['keys'][:10], 'model_n': len(mdurs), 'impl_n': len(t['durs']),
+                'model_totals': [None if mdur is None else float(mdur), float(msum)],
+                'impl_totals': [None if t['duration'] is None else float(t['duration']), float(t['sum'])]})
+
+
+def totals_agree(seq, label, fails):
+    """every place of one object that derives the block list / a total duration"""
+    ev_ids, du_ids = list(seq.block_events), list(seq.block_durations)
+    if ev_ids != du_ids:
+        fails.append((label + '/block-tables-differ', {'block_events': ev_ids[:12], 'block_durations': du_ids[:12]}))
+        return False
+    d, n, _ = seq.duration()
+    tot = sum(seq.block_durations.values())
+    if n != len(du_ids) or abs(F(d) - F(tot)) > tol(F(tot)):
+        fails.append((label + '/duration()-vs-sum(block_durations)', {'duration()': [float(d), n], 'sum': float(tot), 'blocks': len(du_ids)}))
+        return False
+    return True
+
+
+def reused_object_read(ctx, case, fn, fresh, dname):
+    import pypulseq as pp
+    fails = []
+    r = ctx_rng(case)
+    opts = tg.make_opts(case['sys'])
+    used = pp.Sequence(opts)
+    nfile = len(fresh.block_events)
+    extra = r.randint(1, 4)
+    numbers = r.choice(['add', 'add', 'gapped'])
+    with warnings.catch_warnings():
+        warnings.simplefilter('ignore')
+        for k in range(nfile + extra):
+            b = tg.gen_block(r, case['sys'], opts, pad=True, p_rf=0.3, p_g=0.4, p_adc=0.3)
+            evs = [tg.build_event(e, opts, opts) for e in b['events']]
+            if numbers == 'add':
+                used.add_block(*evs)
+            else:
+                used.set_block(3 * k + 2 + (nfile if k % 2 else 0), *evs)
+        warm_up(used, [r.choice(WARM), 'get_block'])
+        before = [(int(k), F(v)) for k, v in used.block_durations.items()]
+        used.read(fn)
+    # input and implementation side of the block-table model comparison (run in batch by compare_model)
+    from common import ztok
+    filetab = [(int(k), F(v)) for k, v in fresh.block_durations.items()]
+    ops = ['S %s %s' % (ztok(k), qtok(v)) for k, v in before] + \
+          ['R %d %s' % (len(filetab), ' '.join('%s %s' % (ztok(k), qtok(v)) for k, v in filetab))]
+    try:
+        idur = F(used.duration()[0])
+    except Exception:  # noqa: BLE001
+        idur = None
+    TABLES.append({'line': 'timing.tables %d %s' % (len(ops), ' '.join(ops)), 'keys': [int(k) for k in used.block_events],
+                   'durs': [(int(k), F(v)) for k, v in used.block_durations.items()], 'duration': idur,
+                   'sum': F(sum(used.block_durations.values())), 'case': case})
+    label = 'reused-object-read'
+    if not totals_agree(used, label, fails):
+        return fails
+    totals_agree(fresh, 'fresh-read', fails)
+    if list(used.block_events) != list(fresh.block_events):
+        fails.append((label + '/block-ids', {'used': list(used.block_events)[:12], 'fresh': list(fresh.block_events)[:12]}))
+        return fails
+    if dict(used.block_durations) != dict(fresh.block_durations):
+        fails.append((label + '/block_durations', {'used': list(used.block_durations.items())[:6], 'fresh': list(fresh.block_durations.items())[:6]}))
+        return fails
+    try:
+        with warnings.catch_warnings():
+            warnings.simplefilter('ignore')
+            wu, eu, ru, au, _ = used.waveforms_and_times()
+            wf, ef, rf_, af, _ = fresh.waveforms_and_times()
+            same = np.array_equal(au, af) and np.array_equal(eu, ef) and np.array_equal(ru, rf_) and \
+                all(np.array_equal(a, b) for a, b in zip(wu, wf))
+            if not same:
+                fails.append((label + '/time-axes', {'adc_equal': bool(np.array_equal(au, af))}))
+            T = float(sum(fresh.block_durations.values()))
+            if T > 0:
+                first = float(next(iter(fresh.block_durations.values())))
+                for a, b in ([0.0, T * r.uniform(0.2, 1.0)], [first * 0.5, T], [T * 0.4, T * 0.9]):
+                    au2, _ = used.adc_times(time_range=[a, b])
+                    af2, _ = fresh.adc_times(time_range=[a, b])
+                    wu2 = used.waveforms(time_range=[a, b])
+                    wf2 = fresh.waveforms(time_range=[a, b])
+                    if not (np.array_equal(au2, af2) and all(np.array_equal(x, y) for x, y in zip(wu2, wf2))):
+                        fails.append((label + '/time_range', {'range': [a, b], 'n_used': len(au2), 'n_fresh': len(af2)}))
+                        break
+                    # the windowed ADC times are a part of the un-windowed ones of the same object
+                    if len(au2) and not set(np.round(au2, 12)).issubset(set(np.round(au, 12))):
+                        fails.append((label + '/time_range-vs-full', {'range': [a, b]}))
+                        break
+            if len(fresh.block_events) <= 5 and r.random() < 0.3:
+                ku = used.calculate_kspace()
+                kf = fresh.calculate_kspace()
+                if not (np.array_equal(ku[4], kf[4]) and np.array_equal(ku[1].shape, kf[1].shape)):
+                    fails.append((label + '/calculate_kspace', {'t_adc_equal': bool(np.array_equal(ku[4], kf[4])),
+                                                                'k_traj_shapes': [list(ku[1].shape), list(kf[1].shape)]}))
+            fu, ff = os.path.join(dname, 'u.seq'), os.path.join(dname, 'f.seq')
+            used.write(fu, create_signature=False)
+            fresh.write(ff, create_signature=False)
+        tu, _, cu = file_facts(fu)
+        tf, _, cf = file_facts(ff)
+        if tu != tf or cu != cf:
+            fails.append((label + '/rewritten-file', {'TotalDuration': [str(tu), str(tf)], 'blocks_equal': cu == cf}))
+        elif open(fu).read() != open(ff).read():
+            fails.append((label + '/rewritten-file-text', {}))
+    except Exception as e:  # noqa: BLE001
+        fails.append((label + '/raises', {'exception': repr(e)}))
+    ctx.count('file.reused_object_read')
+    return fails
 
 
 def ctx_rng(case):
@@ -672,7 +804,7 @@ def corpus():
 
 
 def run(ctx):
-    n = {'quick': 450, 'thorough': 15000}[ctx.tier]
+    n = {'quick': 420, 'thorough': 15000}[ctx.tier]
     rng = ctx.rng('sequences')
     import itertools
     cases = itertools.chain(corpus(), (gen_case(rng) for _ in range(n)))     # lazily: time-boxed runs
@@ -691,9 +823,11 @@ def run(ctx):
             pending.append((case, it))
         if len(pending) >= 60:
             compare_model(ctx, pending)
+            compare_tables(ctx)
             pending = []
     if pending and ctx.model_available:
         compare_model(ctx, pending)
+    compare_tables(ctx)
 
 
 def replay(ctx, case):
@@ -702,5 +836,6 @@ def replay(ctx, case):
         return {'note': 'case does not build'}
     if ctx.model_available and not it['failed']:
         compare_model(ctx, [(case, it)])
+    compare_tables(ctx)
     return {'stored': {k: float(v) for k, v in it['stored'].items()}, 'total': float(it['total']),
             'starts': [float(v) for v in it['starts']]}
